@@ -15,9 +15,11 @@ they are enumerated on the real code by the harness, not modelled.
 import XlModel.Lemmas.CalcTotal
 import XlModel.Lemmas.CalcTotalStack
 import XlModel.Lemmas.CalcTotalFn
+import XlModel.CalcFrame
+import XlModel.Lemmas.CalcTotalSize
 
 namespace XlModel.Props.C09
-open XlModel XlModel.CalcTotal XlModel.Lemmas.CalcTotal XlModel.Lemmas.CalcTotalStack XlModel.Lemmas.CalcTotalFn
+open XlModel XlModel.CalcTotal XlModel.Lemmas.CalcTotal XlModel.Lemmas.CalcTotalStack XlModel.Lemmas.CalcTotalFn XlModel.Lemmas.CalcTotalSize
 
 /-! ## the facts the model is defined over -/
 
@@ -151,6 +153,30 @@ enumerating the model over all nested lists of 5 tokens; reproduced on the real 
 theorem finding_array_paren_function_panics :
     nested [] 0 witnessArrayParenFn = true ∧ evalTokens semU witnessArrayParenFn = .panic := by decide
 
+/-! ## deep nesting ("deep nesting … in bounded time without panicking": no stack overflow) -/
+
+/-- **Stack heights are linear in the formula length, whatever the nesting depth.**
+`evalInfixExp` does not recurse on the structure of the formula: the model's `run` is the
+token loop (`run_eq_runSt`), and every inner loop (`popLoop`, `closeParen`, `flushToSep`,
+`drain`) recurses structurally on one of the six explicit stacks.  After any prefix of `k`
+tokens — for every value semantics, nesting depth and arity, well-formed or not — the six
+stacks together hold at most `5·k` elements, so each inner loop runs at most `5·k` times and
+the Go call stack stays at a constant number of frames.  (Recursion through cell references
+is bounded by `cycle_cutoff_terminates`; recursion inside formula functions is not modelled.)
+Tied by the worker oracle on 10 000 / 100 000 nested parentheses, unary minus, `%`, nested
+SUM/IF and 10 000-term operator chains (`txt/deep`). -/
+theorem stack_heights_linear {V : Type} (S : Sem V) (toks : List Tok) (st : St V)
+    (h : runSt S {} toks = .ok st) : size st ≤ 5 * toks.length := by
+  have := runSt_size S toks {} st h
+  simpa [size] using this
+
+/-- the evaluation is the token loop followed by the final drain -/
+theorem eval_is_token_loop {V : Type} (S : Sem V) (toks : List Tok) :
+    evalTokens S toks = (match runSt S {} toks with
+      | .ok st => finish S st
+      | .err => .err
+      | .panic => .panic) := run_eq_runSt S toks {}
+
 /-! ## termination on circular references ("in bounded time … circular reference chains of any shape") -/
 
 /-- **Cycle cut-off terminates.**  For EVERY reference graph (any shape, any size, any
@@ -240,6 +266,46 @@ theorem lazy_answers_constant (expandFails : Bool) (cellAns : Ans) (n : Nat) :
       rw [this] at ih ⊢
       simp only [List.cons.injEq, true_and]
       exact ih
+
+/-! ## purity ("evaluation never modifies the workbook") for the modelled state -/
+
+/-- **Every write of the evaluator is in the frame.**  Each assignment to a field or element in
+the evaluator's own functions (regenerated: `Facts.C09.evalWrites`) is a write to the per-call
+context, to a local value, to `File.formulaChecked` or to the lazily written `xlsxC.f`; each
+method they call on the workbook objects (`Facts.C09.evalCalls`) is one of the evaluator's
+own functions, a lock, a reader (C04) or `prepareSheetXML` (empty slots).  A new assignment
+or callee in calc.go / cell.go breaks this theorem. -/
+theorem eval_frame_modelled :
+    (∀ w ∈ Facts.C09.evalWrites, (classifyWrite w).isSome = true) ∧
+    (∀ c ∈ Facts.C09.evalCalls, (classifyCall c).isSome = true) := by decide
+
+/-- **`eval_pure`: `Obs (evalState wb c).2 = Obs wb` for the modelled state.**  Whatever sequence
+of framed writes an evaluation performs (flag, lazy `c.f`, materialised empty slots, lazily
+decoded parts, context, locals), what the public getters read is unchanged. -/
+theorem eval_pure {O : Type} (trace : List Write) (wb : WbState O) :
+    (evalState trace wb).obs = wb.obs := by
+  unfold evalState
+  induction trace generalizing wb with
+  | nil => rfl
+  | cons w ws ih =>
+    simp only [List.foldl_cons]
+    rw [ih]
+    cases w <;> rfl
+
+/-- and the internal components only grow (nothing decoded or materialised is dropped) -/
+theorem eval_internal_monotone {O : Type} (trace : List Write) (wb : WbState O) :
+    (wb.checked = true → (evalState trace wb).checked = true) ∧
+    (∀ c ∈ wb.lazyF, c ∈ (evalState trace wb).lazyF) ∧ (∀ c ∈ wb.slots, c ∈ (evalState trace wb).slots) := by
+  unfold evalState
+  induction trace generalizing wb with
+  | nil => exact ⟨id, fun _ h => h, fun _ h => h⟩
+  | cons w ws ih =>
+    simp only [List.foldl_cons]
+    have := ih (applyWrite wb w)
+    refine ⟨fun h => this.1 ?_, fun c h => this.2.1 c ?_, fun c h => this.2.2 c ?_⟩
+    · cases w <;> simp [applyWrite, h]
+    · cases w <;> simp [applyWrite, h]
+    · cases w <;> simp [applyWrite, h]
 
 /-! ## non-vacuity -/
 
